@@ -20,10 +20,19 @@ _roots = None
 
 
 def roots():
+    """the categories sentence sequencing applies to: the library's own list when it exposes one (which categories
+    count as sentence roots is configuration, not part of the statement), else the list as shipped"""
     global _roots
     if _roots is None:
-        from vlib.model_cat import read
+        from vlib.model_cat import model_of, read
         _roots = [read(t) for t in ROOT_TEXTS]
+        try:
+            from depccg.grammar import ja
+            lib = getattr(ja, '_possible_root_categories', None)
+            if lib:
+                _roots = [model_of(c) if not isinstance(c, str) else read(c) for c in lib]
+        except Exception:
+            pass
     return _roots
 
 
@@ -151,8 +160,10 @@ def justify(x, y, res, sym):
         if rs is None:
             return 'result has too few arguments'
         rcore, rargs = rs
-        if not (rcore[0] == 'f' and rcore[2] == '\\'):
-            return 'crossed composition must keep the slash of the secondary functor (\\)'
+        # "keeps the slash of the secondary functor": the backward slash, or the functor's own '|' when it is
+        # written with the either-way slash
+        if not (rcore[0] == 'f' and rcore[2] in ('\\', core[2])):
+            return 'crossed composition must keep the slash of the secondary functor'
         if not (derived(rcore[1], x[1], pool) and derived(rcore[3], core[3], pool)):
             return 'result core is not A\\C'
         if [s for s, _ in rargs] != [s for s, _ in args]:
